@@ -8,6 +8,7 @@ import TlxVerif.Model.C19Codec
 import TlxVerif.Model.C19Split
 import TlxVerif.Model.C19Helpers
 import TlxVerif.Model.C19Spec
+import TlxVerif.Model.C19Old
 import TlxVerif.Proofs.C19Codec
 import TlxVerif.Proofs.C19Split
 import TlxVerif.Proofs.C19Quoted
@@ -413,5 +414,30 @@ exactly the bytes of the drop set, like the copying overload -/
 def erase_all_inplace_statement : Prop :=
   ∀ s drop : Bytes, s.length < npos → eraseAllInplace s drop = s.filter (fun c => !drop.contains c)
 -- OPEN: erase_all_inplace_statement — the loop invariant (everything behind pos1 is already free of drop bytes) is not formalised; the in-place and copying overloads are compared on every `erase` line of the correspondence and against Python's bytes.translate
+
+/-! ## The defects of the pinned tree, as machine-checked facts about the pre-fix transliterations -/
+
+/-- D18: a separator at the very end was not split off -/
+theorem old_split_trailing_separator : Old.splitStr [58] [97, 58] npos = some [[97, 58]] := by decide
+
+/-- D19: the search continued inside a matched separator and built a part from `(last, it)` with `it < last` -/
+theorem old_split_rescan_throws : Old.splitStr [97, 97] [97, 97, 97, 97] npos = none := by decide
+
+/-- the empty separator ignored `limit` -/
+theorem old_split_empty_ignores_limit : (Old.splitStr [] [97, 98, 99] 2).map List.length = some 3 := by decide
+
+/-- D20: an empty field vanishes, a quote-leading field is unreadable -/
+theorem old_join_quoted_no_roundtrip :
+    splitQuoted (Old.joinQuoted [[]] 32 34 92) 32 34 92 = some [] ∧
+    splitQuoted (Old.joinQuoted [[34, 97]] 32 34 92) 32 34 92 = none := by decide
+
+/-- D21 / D22: wrong sign for a proper prefix, bytes ≥ 0x80 before ASCII -/
+theorem old_compare_icase_wrong :
+    Old.compareIcase [97] [97, 98] = 1 ∧ Old.compareIcase [0x80] [97] = -1 ∧ Old.lessIcaseView [0x80] [97] = true := by
+  decide
+
+/-- `equal_icase(string_view, const char*)` answered false for equal strings -/
+theorem old_equal_icase_wrong :
+    Old.equalIcaseViewCstr [97, 98] [65, 66] = false ∧ Old.equalIcaseViewCstr [97] [65, 98] = true := by decide
 
 end TlxVerif.C19
